@@ -17,7 +17,19 @@ def main():
         if a[i] == "--tier": tier = a[i+1]; i += 2
         elif a[i] == "--checks": extra = a[i+1].split(","); i += 2
         else: names.append(a[i]); i += 1
-    if not names:
+    if names == ["--pending"]:
+        names = []
+        for d in sorted(os.listdir(V + "/seeded")):
+            if not os.path.exists(V + "/seeded/%s/patch.diff" % d):
+                continue
+            meta = json.load(open(V + "/seeded/%s/meta.json" % d))
+            rp = V + "/seeded/%s/result.json" % d
+            done = os.path.exists(rp) and meta["property"] in json.load(open(rp)).get(tier, {})
+            cfgp = V + "/checks/%s.json" % meta["property"]
+            if not done and os.path.exists(cfgp) and json.load(open(cfgp)).get("ready"):
+                names.append(d)
+        print("pending:", names)
+    elif not names:
         names = sorted(d for d in os.listdir(V + "/seeded") if os.path.exists(V + "/seeded/%s/patch.diff" % d))
     rc_all = 0
     for n in names:
